@@ -241,6 +241,8 @@ func (o Op) Code(k int, m *Model) string {
 	var b strings.Builder
 	w := func(f string, a ...any) { fmt.Fprintf(&b, "        "+f+"\n", a...) }
 	switch o.K {
+	case "r.lin":
+		b.WriteString(linSnippet(o.I, k))
 	// ---- storage family
 	case "st.save":
 		w(`%s.save(%s, to: %s)`, st, o.V.Lit(), sp(o.P))
@@ -366,6 +368,8 @@ func (o Op) Code(k int, m *Model) string {
 		w(`World.fail(%q)`, o.S)
 	case "x.assert":
 		w(`assert(%d < 0, message: %q)`, o.I, o.S)
+	case "x.recurse":
+		w(`%s`, ob("rc", TInt, false, fmt.Sprintf("World.rec(%d, %v)", o.I, o.J == 1)))
 	case "x.loop":
 		w(`var %s = 0`, n("i"))
 		w(`var %s = 0`, n("acc"))
@@ -537,6 +541,8 @@ func (m *Model) Apply(o Op, pr *Pred) string {
 		stg = a.Storage
 	}
 	switch o.K {
+	case "r.lin":
+		return FChecker
 	case "st.save":
 		return m.save(o.A, o.P, o.V.Clone())
 	case "st.load":
@@ -833,6 +839,11 @@ func (m *Model) Apply(o Op, pr *Pred) string {
 		if !(o.I < 0) {
 			return FAssert
 		}
+	case "x.recurse":
+		if o.J == 1 {
+			return FPanic
+		}
+		pr.obs("rc", fmt.Sprintf("Int(%d)", o.I))
 	case "x.loop":
 		acc := 0
 		for i := 0; i < o.I; i++ {
@@ -939,6 +950,13 @@ func (m *Model) Predict(ops []Op, isScript bool) (*Pred, *Model) {
 		pr.Fail, pr.FailOp = FChecker, k
 		return pr, m
 	}
+	// a program that violates resource linearity is rejected as a whole, before any operation runs
+	for k, o := range ops {
+		if o.K == "r.lin" {
+			pr.Fail, pr.FailOp = FChecker, k
+			return pr, m
+		}
+	}
 	for k, o := range ops {
 		if f := scratch.Apply(o, pr); f != "" {
 			pr.Fail = f
@@ -959,4 +977,43 @@ func richS() *Val {
 	s.F["o"] = VSome(TOpt(TString), VStr("z"))
 	s.F["oa"] = VSome(TOpt(TArr(TInt)), VArr(TArr(TInt), VInt(1)))
 	return s
+}
+
+// linSnippet: programs that lose, duplicate or use a moved resource on some path. Each must be rejected by the checker; if one is
+// accepted, the transaction runs and the resource population changes without a creation or destruction (C02).
+const linVariants = 12
+
+func linSnippet(variant, k int) string {
+	r := fmt.Sprintf("lr_%d", k)
+	eat := fmt.Sprintf("eat_%d", k)
+	head := fmt.Sprintf("        let %s <- World.make(%d)\n        let %s = fun (_ x: @World.R): Bool { destroy x; return true }\n        var flag_%d = s1.address == 0x1\n", r, 900+variant, eat, k)
+	f := fmt.Sprintf("flag_%d", k)
+	var body string
+	switch variant % linVariants {
+	case 0:
+		body = fmt.Sprintf("let ok = %s || %s(<-%s)", f, eat, r)
+	case 1:
+		body = fmt.Sprintf("let ok = !%s && %s(<-%s)", f, eat, r)
+	case 2:
+		body = fmt.Sprintf("let o: Bool? = %s ? true : nil\n        let ok = o ?? %s(<-%s)", f, eat, r)
+	case 3:
+		body = fmt.Sprintf("if %s { destroy %s }", f, r)
+	case 4:
+		body = fmt.Sprintf("destroy %s\n        destroy %s", r, r)
+	case 5:
+		body = fmt.Sprintf("var i = 0\n        while i < 1 { destroy %s; i = i + 1 }", r)
+	case 6:
+		body = fmt.Sprintf("let n = %s.id", r)
+	case 7:
+		body = fmt.Sprintf("let a <- [<- %s]\n        let b <- a\n        let c <- a\n        destroy b\n        destroy c", r)
+	case 8:
+		body = fmt.Sprintf("let ok = %s ? %s(<-%s) : false", f, eat, r)
+	case 9:
+		body = fmt.Sprintf("if %s { let x <- %s; destroy x } else { World.mark(\"else\") }", f, r)
+	case 10:
+		body = fmt.Sprintf("let arr <- [<- %s]\n        for x in [1, 2] { if x == 1 { destroy arr } }", r)
+	default:
+		body = fmt.Sprintf("switch %s {\n        case true: destroy %s\n        default: World.mark(\"d\")\n        }", f, r)
+	}
+	return head + "        " + body + "\n"
 }
